@@ -708,7 +708,7 @@ func C07Static(corpusDir, design string, sp *spec.Spec) []*MethodResult {
 	first := true
 	for _, svc := range sp.Services {
 		for _, m := range svc.Methods {
-			s := &Svc{Design: design, Spec: sp, Service: svc, V: V{sp}}
+			s := &Svc{Design: design, Spec: sp, Service: svc, V: V{S: sp}}
 			r := &MethodResult{Design: design, Service: svc.Name, Method: m.Name, Feat: m.Feat}
 			out = append(out, r)
 			if m.HTTP == nil {
